@@ -36,7 +36,7 @@ type oblResult struct {
 	res  *SolveResult
 	outside *SolveResult // result under "not in known class"
 	known *KnownFinding
-	q, qOutside *Rendered
+	q, qOutside, qSliced *Rendered
 }
 
 var verifDir = "/verif"
@@ -288,6 +288,11 @@ func cmdCheck(args []string) int {
 	solveT0 := time.Now()
 	for _, r := range results {
 		r.q = r.ex.scriptFor(r.ob, nil).Prepare()
+		if !r.ob.Cover {
+			if sl := r.ex.slicedScript(r.ob); sl != nil {
+				r.qSliced = sl.Prepare()
+			}
+		}
 		if r.known != nil && !r.ob.Cover && r.known.Class != "" {
 			cls, err := r.ex.knownClass(r.known, W)
 			if err != nil {
@@ -299,7 +304,21 @@ func cmdCheck(args []string) int {
 	}
 	forEachParallel(len(results), 12, func(i int) {
 		r := results[i]
-		r.res = Solve(r.q, outDir, r.ob.Name, timeout, all)
+		if r.qSliced != nil {
+			// first the same obligation with only the assumptions in the cone of influence of the goal
+			// (dropping assumptions is sound: only an 'unsat' answer of this stage is used)
+			sres := Solve(r.qSliced, outDir, r.ob.Name+".sliced", 4, false)
+			if sres.Status == "unsat" {
+				sres.Solver += " (sliced assumptions)"
+				r.res = sres
+				return
+			}
+		}
+		to := timeout
+		if r.ob.Cover && to > 3 {
+			to = 3 // satisfiability (non-vacuity) probes: an undecided probe is reported, never fatal
+		}
+		r.res = Solve(r.q, outDir, r.ob.Name, to, all && !r.ob.Cover)
 		if r.qOutside != nil && r.res.Status != "unsat" {
 			r.outside = Solve(r.qOutside, outDir, r.ob.Name+".outside-known-class", timeout, all)
 		}
